@@ -70,6 +70,7 @@ var vpPeers = []string{"10.0.0.1:8333", "10.0.0.2:8333", "[2001:db8::9]:8333"}
 // VerifH_C06_getBlock: see the file comment.
 func VerifH_C06_getBlock() {
 	vpOpt("clock", 1)
+	vpOpt("blocktime", 1)
 	db := vpNewDB()
 	banStore, err := banman.NewStore(db)
 	if err != nil {
@@ -145,14 +146,33 @@ func VerifH_C06_getBlock() {
 
 	// reference: the first response that carries the requested header and is valid
 	firstValid := -1
+	timeOnly := false
 	for k, r := range wm.responses {
 		if k >= len(wm.handled) {
 			break // not delivered (the query had already finished)
 		}
-		valid := r.same && vpConcreteBool(vpBlockSane(r.blk)) && vpConcreteBool(vpBlockWitnessOK(r.blk))
+		// (the sanity check looks at the header's timestamp first and stops there when it is too far ahead of the local clock)
+		valid := r.same && vpConcreteBool(vpBlockTimeOK(r.blk)) && vpConcreteBool(vpBlockSane(r.blk)) && vpConcreteBool(vpBlockWitnessOK(r.blk))
 		if valid && firstValid < 0 {
 			firstValid = k
 		}
+		if r.same && !vpConcreteBool(vpBlockTimeOK(r.blk)) && vpConcreteBool(vpBlockSane(r.blk)) && vpConcreteBool(vpBlockWitnessOK(r.blk)) {
+			// the requested block, internally valid, refused only for its
+			// timestamp: the property allows returning it as well as refusing it
+			timeOnly = true
+		}
+	}
+	if timeOnly {
+		vpReach("valid-block-refused-for-its-timestamp-alone")
+		if blk != nil {
+			mb := blk.MsgBlock()
+			vpAssert(mb.Header.BlockHash() == wantHash, "returned-block-has-the-requested-hash")
+			vpAssert(vpConcreteBool(vpBlockSane(mb)), "returned-block-is-sane")
+			vpAssert(vpConcreteBool(vpBlockWitnessOK(mb)), "returned-block-has-valid-witness-commitment")
+		} else {
+			vpAssert(gerr != nil, "fails-rather-than-return-anything-else")
+		}
+		return
 	}
 	// the dispatcher must have been allowed to go on until a valid response showed up
 	for k, r := range wm.responses {
@@ -182,18 +202,26 @@ func VerifH_C06_getBlock() {
 	}
 	// bans: exactly the senders of a requested-header block that failed a check
 	for _, p := range vpPeers {
-		shouldBan := false
+		shouldBan, mayBan := false, false
 		for k, r := range wm.responses {
 			if k >= len(wm.handled) || r.peer != p || !r.same {
 				continue
 			}
-			if !vpConcreteBool(vpBlockSane(r.blk)) {
+			if !vpConcreteBool(vpBlockTimeOK(r.blk)) {
+				// refused for its timestamp alone: whether that is held against
+				// the sender is not a C06 matter
+				mayBan = true
+				vpReach("block-timestamp-ahead-of-the-local-clock")
+			} else if !vpConcreteBool(vpBlockSane(r.blk)) {
 				shouldBan = true
 			} else if !vpConcreteBool(vpBlockWitnessOK(r.blk)) {
 				shouldBan = true
 			}
 		}
 		banned := s.IsBanned(p)
+		if mayBan && !shouldBan {
+			continue
+		}
 		if shouldBan {
 			vpReach("expect-ban")
 			vpAssert(banned, "sender-of-invalid-block-banned")
